@@ -25,6 +25,9 @@
 (* lock can only be the evaluating thread's.)                              *)
 (***************************************************************************)
 EXTENDS Integers, Sequences, FiniteSets, TLC, Json, IOUtils
+CONSTANT Atomic    \* TRUE: the atomic engine (the property).  FALSE: the fine-grained engine - an evaluation whose program
+                   \* depends on an operator's precedence reads the registry twice (precedence while parsing, handler while
+                   \* evaluating); used only to attribute a rejection to the known finding F1 (non-atomic evaluation)
 Evs == ndJsonDeserialize(IOEnv.TRACE)
 N == Len(Evs)
 Regs == {"prefix", "infix", "postfix", "func"}
@@ -40,51 +43,67 @@ VARIABLES l,        \* next event to consume
           owner,    \* the thread running the once-cell closure ("none" before)
           pend,     \* pend[t]: the call thread t is in, or <<>>
           lin,      \* lin[t]: that call has taken effect
-          res       \* res[t]: what the call resolved (exec) at its linearization point
-tv == <<l, reg, stage, owner, pend, lin, res>>
+          res,      \* res[t]: what the call resolved (exec) at its linearization point
+          early     \* early[t]: fine-grained mode - the precedence class read while parsing ("" = not read yet)
+tv == <<l, reg, stage, owner, pend, lin, res, early>>
 TInit == /\ l = 1 /\ stage = 0 /\ owner = "none"
          /\ reg = [c \in Cells |-> "none"]
          /\ pend = [t \in ThreadsOf |-> <<>>] /\ lin = [t \in ThreadsOf |-> FALSE] /\ res = [t \in ThreadsOf |-> "none"]
+         /\ early = [t \in ThreadsOf |-> ""]
 E == Evs[l]
 Consume == l' = l + 1
 \* ---- events --------------------------------------------------------------------------------------
 TCall == /\ l <= N /\ E.ev = "call" /\ pend[E.t] = <<>>
-         /\ pend' = [pend EXCEPT ![E.t] = E] /\ lin' = [lin EXCEPT ![E.t] = FALSE] /\ Consume
+         /\ pend' = [pend EXCEPT ![E.t] = E] /\ lin' = [lin EXCEPT ![E.t] = FALSE] /\ early' = [early EXCEPT ![E.t] = ""] /\ Consume
          /\ UNCHANGED <<reg, stage, owner, res>>
 TInitEnter == /\ l <= N /\ E.ev = "probe" /\ E.site = "init:enter"
-              /\ owner = "none" /\ owner' = E.t /\ Consume /\ UNCHANGED <<reg, stage, pend, lin, res>>
+              /\ owner = "none" /\ owner' = E.t /\ Consume /\ UNCHANGED <<reg, stage, pend, lin, res, early>>
 StageNo(site) == CASE site = "init:stage1" -> 1 [] site = "init:stage2" -> 2 [] site = "init:stage3" -> 3 [] site = "init:stage4" -> 4
 TInitStage == /\ l <= N /\ E.ev = "probe" /\ E.site \in {"init:stage1", "init:stage2", "init:stage3", "init:stage4"}
               /\ E.t = owner /\ stage = StageNo(E.site) - 1
               /\ stage' = StageNo(E.site)
               /\ reg' = [c \in Cells |-> IF c[1] = StageReg[StageNo(E.site)] /\ c \in BuiltinCells THEN "b" ELSE reg[c]]
-              /\ Consume /\ UNCHANGED <<owner, pend, lin, res>>
+              /\ Consume /\ UNCHANGED <<owner, pend, lin, res, early>>
 \* NoPartialInit: a registry access by any thread but the initialiser needs the complete tables
 TAccess == /\ l <= N /\ E.ev = "probe" /\ E.site = "access"
            /\ (E.t = owner \/ stage = 4)
-           /\ Consume /\ UNCHANGED <<reg, stage, owner, pend, lin, res>>
+           /\ Consume /\ UNCHANGED <<reg, stage, owner, pend, lin, res, early>>
 \* the handler that runs is the one the call resolved
 THandler == /\ l <= N /\ E.ev = "handler"
             /\ pend[E.t] # <<>> /\ lin[E.t]
             /\ ("text" \notin DOMAIN pend[E.t]) => res[E.t] = E.h
-            /\ Consume /\ UNCHANGED <<reg, stage, owner, pend, lin, res>>
+            /\ Consume /\ UNCHANGED <<reg, stage, owner, pend, lin, res, early>>
 TRet == /\ l <= N /\ E.ev = "ret" /\ pend[E.t] # <<>> /\ lin[E.t]
         /\ IF pend[E.t].op = "exec" THEN E.res = res[E.t] ELSE E.res = "ok"
-        /\ pend' = [pend EXCEPT ![E.t] = <<>>] /\ Consume /\ UNCHANGED <<reg, stage, owner, lin, res>>
+        /\ pend' = [pend EXCEPT ![E.t] = <<>>] /\ Consume /\ UNCHANGED <<reg, stage, owner, lin, res, early>>
 \* several process runs in one file: a reset event separates them (every call must have returned)
 TReset == /\ l <= N /\ E.ev = "reset" /\ \A t \in ThreadsOf : pend[t] = <<>>
           /\ stage' = 0 /\ owner' = "none" /\ reg' = [c \in Cells |-> "none"]
-          /\ lin' = [t \in ThreadsOf |-> FALSE] /\ res' = [t \in ThreadsOf |-> "none"] /\ Consume /\ UNCHANGED pend
+          /\ lin' = [t \in ThreadsOf |-> FALSE] /\ res' = [t \in ThreadsOf |-> "none"] /\ early' = [t \in ThreadsOf |-> ""] /\ Consume /\ UNCHANGED pend
 \* ---- the silent linearization point ------------------------------------------------------------------
-Lin(t) == /\ pend[t] # <<>> /\ ~lin[t] /\ stage = 4
+\* does this evaluation read the registry twice (its program's grouping depends on the operator's precedence)?
+TwoReads(c) == ~Atomic /\ c.op = "exec" /\ "parts" \in DOMAIN c
+\* (Without loss of generality a linearization point is only placed directly before a return or a handler entry: those are
+\* the only events that constrain it, and delaying it until then preserves every real-time order.)
+Lin(t) == /\ pend[t] # <<>> /\ ~lin[t] /\ stage = 4 /\ l <= N /\ E.ev \in {"ret", "handler"}
           /\ LET c == pend[t] cell == <<c.r, c.name>> IN
-             IF c.op = "reg" THEN reg' = [reg EXCEPT ![cell] = c.val] /\ res' = res
-             ELSE reg' = reg /\ res' = [res EXCEPT ![t] = reg[cell]]
-          /\ lin' = [lin EXCEPT ![t] = TRUE]
+             IF c.op = "reg" THEN reg' = [reg EXCEPT ![cell] = c.val] /\ res' = res /\ early' = early /\ lin' = [lin EXCEPT ![t] = TRUE]
+             ELSE IF TwoReads(c) /\ early[t] = "" THEN
+                  \* first read, while parsing: is it an operator, and at which precedence
+                  /\ early' = [early EXCEPT ![t] = IF reg[cell] = "none" THEN "none" ELSE c.parts[reg[cell]][2]]
+                  /\ UNCHANGED <<reg, res, lin>>
+             ELSE IF TwoReads(c) THEN
+                  \* second read, while evaluating: the handler; the result combines it with the grouping decided earlier
+                  /\ res' = [res EXCEPT ![t] = IF early[t] = "none" \/ reg[cell] = "none" THEN "none" ELSE c.compose[c.parts[reg[cell]][1]][early[t]]]
+                  /\ lin' = [lin EXCEPT ![t] = TRUE] /\ UNCHANGED <<reg, early>>
+             ELSE reg' = reg /\ res' = [res EXCEPT ![t] = reg[cell]] /\ early' = early /\ lin' = [lin EXCEPT ![t] = TRUE]
           /\ UNCHANGED <<l, stage, owner, pend>>
 TNext == TCall \/ TInitEnter \/ TInitStage \/ TAccess \/ THandler \/ TRet \/ TReset \/ (\E t \in ThreadsOf : Lin(t))
 TSpec == TInit /\ [][TNext]_tv
-\* acceptance: some behaviour consumes every event; the furthest point reached is kept in a TLC register
+\* acceptance: some behaviour consumes every event.  NotDone is given to TLC as an invariant so that the search stops as soon
+\* as one such behaviour is found ("violated" = accepted); if the search ends without, the furthest point reached (kept in a
+\* TLC register) locates the rejection.
+NotDone == l <= N
 Progress == TLCSet(1, IF l > TLCGet(1) THEN l ELSE TLCGet(1))
 TraceAccepted == IF TLCGet(1) = N + 1 THEN PrintT(ToJson([accepted |-> N]))
                  ELSE PrintT(ToJson([rejected_at |-> TLCGet(1), event |-> IF TLCGet(1) <= N THEN Evs[TLCGet(1)] ELSE <<>>]))
